@@ -239,10 +239,7 @@ def F1(ctx: Ctx) -> RuleResult:
                 r.fail(name, f'path does not return: {str(o)[:100]}', fi.where)
                 good = False
                 continue
-            three = None
-            for t, p in norm_guards(o.guards):
-                if isinstance(t, Op) and t.op == '==' and t.args[0] == Call(Ext('len'), (CH,)) and isinstance(t.args[1], Const):
-                    three = (t.args[1].value == 3) == p if t.args[1].value == 3 else ((t.args[1].value == 1) != p if t.args[1].value == 1 else None)
+            three = _child_count_case(o.guards)
             if three is None:
                 r.fail(name, f'cannot tell the 1-child from the 3-child case: [{guards_repr(o.guards)}]', fi.where)
                 good = False
@@ -358,6 +355,37 @@ def _converters(ctx: Ctx, r: RuleResult):
             r.ok(f'{cname}.{fname}: element-wise converter {fi.name}')
         else:
             r.fail(key, f'converter {fi.name} is not an element-wise map over all elements in order ({[str(o.value)[:70] for o in outs]}): elements may be dropped, merged or reordered', fi.where)
+
+
+def _child_count_case(guards) -> Optional[bool]:
+    """True if the path is taken exactly for 3 children, False if exactly for 1 child (the rule yields only 1 or 3)"""
+    ln = Call(Ext('len'), (CH,))
+
+    def ev(t: Term, n: int) -> Optional[bool]:
+        if isinstance(t, Op) and len(t.args) == 2 and t.args[0] == ln and isinstance(t.args[1], Const) and t.op in ('==', '!=', '<', '<=', '>', '>='):
+            k = t.args[1].value
+            return {'==': n == k, '!=': n != k, '<': n < k, '<=': n <= k, '>': n > k, '>=': n >= k}[t.op]
+        if isinstance(t, Op) and t.op == 'not':
+            v = ev(t.args[0], n)
+            return None if v is None else not v
+        if isinstance(t, Op) and t.op in ('and', 'or'):
+            vs = [ev(a, n) for a in t.args]
+            if any(v is None for v in vs):
+                return None
+            return all(vs) if t.op == 'and' else any(vs)
+        return None
+    ok = {1: True, 3: True}
+    informative = False
+    for t, p in guards:
+        for n in (1, 3):
+            v = ev(t, n)
+            if v is not None:
+                informative = True
+                if v != p:
+                    ok[n] = False
+    if not informative or ok[1] == ok[3]:
+        return None
+    return ok[3]
 
 
 def _event_disjunction(ctx: Ctx, r: RuleResult):
